@@ -2469,7 +2469,7 @@ def r9_rendered_text(run):
         sites = None
         for (call, tmpl) in _src_format_calls(p, cx):
             n_templates += 1
-            for (idx, conv, pos, line) in H.placeholder_positions(tmpl, src.qual):
+            for (idx, conv, pos, line, quote) in H.placeholder_positions(tmpl, src.qual, with_quote=True):
                 if idx >= len(call.args):
                     raise UnknownIdiom('%s: placeholder {%d} without argument' % (src.qual, idx))
                 a = call.args[idx]
@@ -2494,8 +2494,18 @@ def r9_rendered_text(run):
                     run.check(not (t.haz & H.FORBIDDEN[pos]), '%s renders a constant into %s position' % (cx.name, pos), src,
                               '%s :: {%d} <- %s' % (line, idx, short(a, 40)), where=src.loc(call))
                     continue
+                fed_by = a
+                a, chain = H.peel_escape(a)
                 if _self_attr(a) is None:
-                    raise UnknownIdiom('%s: placeholder {%d} of %r is fed by %s' % (src.qual, idx, line, short(a, 60)))
+                    raise UnknownIdiom('%s: placeholder {%d} of %r is fed by %s' % (src.qual, idx, line, short(fed_by, 60)))
+                # a hand-written escape (<attr>.replace(c, c')...): which hazards it provably neutralises at this position
+                neutral, altered, failing = H.escape_effect(chain, pos, quote, src.qual)
+                if chain:
+                    run.check(not altered, '%s renders self.%s between %s quotes through a hand-written escape: the escape leaves every ordinary '
+                              'character denoting itself' % (cx.name, a.attr, quote), src,
+                              '%s :: {%d} <- %s [ordinary characters]' % (line, idx, short(fed_by, 80)), where=src.loc(call),
+                              witness=['%r is rendered as %r' % (c, H.apply_chain(chain, c)) for c in altered[:6]] if altered else None,
+                              runtime_witness='the literal compared with the path segment is not the text of the template segment')
                 attr = a.attr
                 if attr not in cx.attr_src:
                     raise UnknownIdiom('%s: self.%s is not set by the constructor' % (src.qual, attr))
@@ -2510,15 +2520,28 @@ def r9_rendered_text(run):
                     if txt is None:
                         raise UnknownIdiom('%s: origin of %s (rendered as self.%s of %s into %s position: %r) is not understood' % (
                             f.qual, arg_txt or attr, attr, cx.name, pos, line))
-                    bad = sorted(txt.haz & H.FORBIDDEN[pos])
+                    bad = sorted((txt.haz & H.FORBIDDEN[pos]) - neutral)
                     deps |= txt.deps
                     n_ph += 1
+                    esc = []
+                    if chain:
+                        esc = ['hand-written escape %s: on the alphabet {backslash, \', ", CR, LF} it %s' % (
+                            short(fed_by, 80), ('handles ' + ' and '.join(sorted(neutral))) if neutral else 'handles neither class completely')]
+                        esc += ['the character %r is rendered as the source text %r' % (ch, (quote or '') + H.apply_chain(chain, ch) + (quote or ''))
+                                for hz in bad for ch in failing.get(hz, [])]
+                        if bad and H.QUOTE not in bad:
+                            # the escape is complete for quotes and backslashes; the bound on the text (`may contain a line break`) is
+                            # an over-approximation for some creation sites (a literal segment has no field expression)
+                            raise UnknownIdiom('%s: %s escapes quotes and backslashes but not line breaks; whether the text created at %s '
+                                               'can contain a line break is not decided' % (src.qual, short(fed_by, 80), f.loc(c)))
                     run.check(not bad, '%s renders self.%s %s (%s): the text reaching it from this creation site is an int, a generated name, a '
-                              'constant, or template text validated so that it cannot contain %s -- otherwise it needs a conversion (!r)' % (
+                              'constant, or template text validated so that it cannot contain %s -- otherwise it needs a conversion (!r) or an '
+                              'escape that provably escapes the backslash, the quote and the line break' % (
                                   cx.name, attr, {'quoted': 'between quotes', 'comment': 'in a trailing comment', 'bare': 'in code position'}[pos],
                                   line, ' / '.join(sorted(H.FORBIDDEN[pos]))),
-                              src, '%s :: {%d} <- self.%s <- %s' % (line, idx, attr, arg_txt or '<constant>'), where=f.loc(c),
-                              witness=['created in %s: %s' % (f.qual, short(c, 100))] + ['may contain %s' % ', '.join(bad)] + list(txt.notes)
+                              src, '%s :: {%d} <- %s <- %s' % (line, idx, ('self.' + attr) if not chain else short(fed_by, 80),
+                                                               arg_txt or '<constant>'), where=f.loc(c),
+                              witness=['created in %s: %s' % (f.qual, short(c, 100))] + ['may contain %s' % ', '.join(bad)] + list(txt.notes) + esc
                               if bad else None,
                               runtime_witness=W[pos])
     if n_templates < 8:
